@@ -64,7 +64,7 @@ def _inlinable(tu, caller, e, stack, keep):
         return None
     if callee.kind not in ("function", "method") or callee.rec.get("coro") or callee.id in stack:
         return None
-    if callee.qe in keep or "(anonymous class)" in callee.q or "(lambda" in callee.q:
+    if callee.qe in keep or "(anonymous class)" in callee.qe or "(lambda" in callee.qe or callee.rec.get("lambda"):
         return None
     if len(callee.blocks) > MAX_BLOCKS or callee.rec.get("noreturn"):
         return None
